@@ -443,13 +443,14 @@ Theorem combined_delivers_sdk dst (b : buse) (bs : list buse) pk :
   wf_topo t = true ->
   Forall (fun b => (S (bu_k b) < length (bu_us b))%nat) (b :: bs) ->
   assemble dst (map use_of (b :: bs)) = Some pk ->
+  (length (p_hops (k_path pk)) <= 64)%nat ->
   exists d r, g_hops (tseg_of b) = d :: r /\
     (route_topo t now (tseg_of b) d r (map tseg_of bs) dst ->
      exists tr pk' pre il,
        sdk_sim mac (length r + S (fuel_rest (map tseg_of bs))) t now (d_ia d) 0 pk = (tr, EndVerdict, pk')
        /\ tr = pre ++ [mkStep dst il ALocal]).
 Proof.
-  intros W F Ha. destruct (combined_delivers dst b bs pk F Ha) as (d & r & Hg & D).
+  intros W F Ha H64. destruct (combined_delivers dst b bs pk F Ha) as (d & r & Hg & D).
   exists d, r. split; [exact Hg|]. intros RT. destruct (D RT) as (rtr & pk' & R & _).
   rewrite (assemble_packet_of dst bs b F) in Ha. inversion Ha; subst pk; clear Ha.
   assert (T : segs_two (tseg_of b :: map tseg_of bs)).
@@ -457,7 +458,7 @@ Proof.
     unfold segs_two. apply Forall_forall. intros g Hin. apply in_map_iff in Hin. destruct Hin as (x & <- & Hx).
     rewrite Forall_forall in F. destruct (bu_facts x (F x Hx)) as (d0 & d1 & r0 & Hg0 & _). eauto. }
   destruct (packet_of_shape (tseg_of b) (map tseg_of bs) dst T) as (S1 & S2 & S3).
-  destruct (ref_sim_complete mac _ t now W _ _ _ _ _ _ S1 S2 S3 R) as (tr & Hs & _ & pre & il & Et).
+  destruct (ref_sim_complete mac _ t now W _ _ _ _ _ _ S1 S2 H64 S3 R) as (tr & Hs & _ & pre & il & Et).
   exists tr, pk', pre, il. split; assumption.
 Qed.
 
